@@ -46,6 +46,9 @@ sx_enum! {
         Acc { acc: Access },
         // borrow-mode: audit a few handles through `&self` paths while the query is in flight
         Peek { h: Sel },
+        // mut-mode sneaky site: a nested query macro (kind % 3: ecs_iter!, ecs_iter_destroy!, ecs_find!)
+        // on the unmatched archetype, from inside the closure of the query in flight
+        OtherQuery { kind: u8, n: u32, mask: u32 },
     }
 }
 
